@@ -5,6 +5,17 @@ Pillow) and compares the decoded pixels with what Pillow gives for the same conv
 and BOX resize of a freshly opened copy of the source.  Also drives
 Transmission.get_chunks directly (unit cases: any payload length, any chunk size).
 
+Round 4: (a) the method SET on the image or its class and the per-render OVERRIDE are two
+independent inputs (`set_method` / `set_level` / `override`); (b) the terminal environment
+as seen by the library (get_cell_size / get_terminal_size / get_cell_ratio under every
+name a term_image module holds them) is wrapped: every read is counted and recorded, and with
+`envchg = {"at": n, "cell": .., "term": .., "ratio": ..}` the first n reads (in program
+order, all three functions together) see the old environment and every later read the new
+one — a font zoom / window resize landing between two reads of ONE render.  `"at": "each"`
+first counts the reads N of the unchanged run and then returns one result per position
+n = 1 .. N-1 (plus the unchanged run).  The rendered size the render was made for is
+pinned at the entry of _render_image (a dynamic size is fixed by _renderer at that point).
+
 Everything reported is an integer, a bool, a short string or a list of those."""
 import implenv
 from implenv import tests
@@ -14,6 +25,7 @@ import os
 import random
 import re
 import shutil
+import sys
 import tempfile
 import warnings
 import zlib
@@ -265,7 +277,9 @@ def setup_style(case):
 def construct(cls, case, path, opener):
     kw = {}
     sz = case["size"]
-    if isinstance(sz, str):
+    if isinstance(sz, str) and case.get("dynamic"):
+        kw = {"width": 1, "height": 1}  # replaced by the DYNAMIC size after construction
+    elif isinstance(sz, str):
         kw = {"width": Size[sz]}
     else:
         kw = {"width": sz[0], "height": sz[1]}
@@ -282,31 +296,94 @@ def construct(cls, case, path, opener):
     else:  # a PIL image made in memory: no format, no file name
         keep = opener()
         image = cls(keep, **kw)
+    if isinstance(sz, str) and case.get("dynamic"):
+        image.size = Size[sz]  # re-computed by _renderer at every render
     return image, keep
+
+
+def set_over(case):
+    """(method given to set_render_method() or None, "instance" | "class", per-render
+    override or None).  Cases without the round-4 keys: `via` setmethod/str sets the
+    method on the instance, every other `via` passes it as the override."""
+    if "override" in case or "set_method" in case:
+        return case.get("set_method"), case.get("set_level", "instance"), case.get("override")
+    if case.get("via", "format") in ("setmethod", "str"):
+        return case["method"], "instance", None
+    return None, "instance", case["method"]
+
+
+class Env:
+    """The terminal environment as the image modules see it, with every read recorded and
+    an optional change after `at` reads."""
+
+    def __init__(self, case):
+        chg = case.get("envchg") or {}
+        self.at = chg.get("at")
+        self.b_cell = tuple(chg["cell"]) if chg.get("cell") else None
+        self.b_term = tuple(chg["term"]) if chg.get("term") else None
+        self.b_ratio = chg.get("ratio")
+        self.a_term = tuple(case["term_size"]) if case.get("term_size") else None
+        self.n = 0
+        self.inside = 0
+        self.trace = []  # [function, inside _render_image?, value]
+        self.saved = None
+
+    def _read(self, name, a_value, b_value):
+        changed = self.at is not None and self.n >= self.at and b_value is not None
+        self.n += 1
+        v = b_value if changed else a_value
+        self.trace.append([name, int(self.inside > 0), list(v) if isinstance(v, tuple) else v])
+        return v
+
+    def install(self):
+        # every name under which a term_image module reaches the environment (the image modules
+        # import them into their own namespace; utils / the package hold the originals — here the
+        # test-suite's stubs), so that a read is seen whatever route the code takes to it
+        self.saved = []
+        for modname, mod in list(sys.modules.items()):
+            if mod is None or not modname.startswith("term_image"):
+                continue
+            for name, tag in (("get_cell_size", "cs"), ("get_terminal_size", "ts"), ("get_cell_ratio", "cr")):
+                f = mod.__dict__.get(name)
+                if callable(f):
+                    self.saved.append((mod, name, f))
+                    setattr(mod, name, self._wrapper(tag, f))
+
+    def _wrapper(self, tag, f):
+        if tag == "cs":
+            return lambda: self._read("cs", f(), self.b_cell)
+        if tag == "ts":
+            return lambda: os.terminal_size(self._read("ts", self.a_term or tuple(f()), self.b_term))
+        return lambda: self._read("cr", f(), self.b_ratio)
+
+    def remove(self):
+        for mod, name, f in self.saved:
+            setattr(mod, name, f)
 
 
 def render(image, case):
     alpha = case["alpha"]
     if isinstance(alpha, list):
         alpha = alpha[0]  # [0.5] encodes a float
-    m = {"lines": "L", "whole": "W", "anim": "A"}[case["method"]]
-    style = f"{m}"
+    setm, level, over = set_over(case)
+    if setm is not None:  # any letter case is accepted
+        (type(image) if level == "class" else image).set_render_method(setm)
+    style = {"lines": "L", "whole": "W", "anim": "A", None: ""}[over]
     if case["style"] == "kitty":
         style += f"z{case['z']}m{int(case['mix'])}c{case['compress']}"
     else:
         style += f"m{int(case['mix'])}c{case['compress']}"
     via = case.get("via", "format")
     if via == "renderer":  # the entry used by the animation code (blend is not public)
-        args = dict(method=case["method"], mix=case["mix"], compress=case["compress"])
+        args = dict(mix=case["mix"], compress=case["compress"])
+        if over is not None:
+            args["method"] = over
         if case["style"] == "kitty":
             args.update(z_index=case["z"], blend=case["blend"])
         return image._renderer(image._render_image, alpha, **args), alpha
-    if via == "setmethod":
-        image.set_render_method(case["method"])
-        style = style[1:]
     if via == "str":
-        # str(image): default alpha threshold, default style arguments
-        image.set_render_method(case["method"])
+        # str(image): default alpha threshold, default style arguments, no override possible
+        assert over is None
         return str(image), 40 / 255
     return format(image, f"1.1{alpha_spec(alpha)}+{style}"), alpha
 
@@ -334,9 +411,28 @@ def run_unit(case):
 def run_case(case, idx):
     if case.get("unit"):
         return run_unit(case)
+    chg = case.get("envchg") or {}
+    if chg.get("at") == "each":
+        # every position of the change: the unchanged run tells how many reads there are
+        res0 = run_case({**case, "envchg": {**chg, "at": None}}, idx)
+        each = [[None, res0]]
+        for at in range(1, res0.get("n_reads", 0)):
+            each.append([at, run_case({**case, "envchg": {**chg, "at": at}}, idx)])
+        return {"each": each}
+    env = Env(case)
+    cls = setup_style(case)
+    env.install()
+    try:
+        return run_render_case(case, idx, env, cls)
+    finally:
+        env.remove()
+        if case.get("set_level") == "class":
+            cls.set_render_method(None)
+
+
+def run_render_case(case, idx, env, cls):
     tests.set_cell_size(tuple(case["cell"]))
     tests.set_fg_bg_colors(bg=tuple(case.get("bg", (0, 0, 0))) if case.get("bg") is not False else None)
-    cls = setup_style(case)
     path, opener = build_source(case["src"], idx)
     image, keep = construct(cls, case, path, opener)
     res = {}
@@ -367,16 +463,37 @@ def run_case(case, idx):
             readable = False
     res["readable"] = bool(readable)
     size_before = image.size
+    pinned = []
+    bound_render_image = image._render_image
+
+    def render_image(*a, **k):
+        # the size this render is made for (fixed while _renderer runs: no environment read)
+        pinned.append(list(image.rendered_size))
+        env.inside += 1
+        try:
+            return bound_render_image(*a, **k)
+        finally:
+            env.inside -= 1
+
+    image._render_image = render_image
+    env.n, env.trace[:] = 0, []  # count the reads of the render only (not of the construction)
     try:
         out, alpha = render(image, case)
         res["raised"] = ""
     except Exception as e:  # noqa: BLE001 - reported, judged by the oracle
         res["raised"] = type(e).__name__
-        res["rsize"] = list(image.rendered_size)
+        res["raised_msg"] = str(e)[:120]
+    finally:
+        del image._render_image
+    res["n_reads"] = len(env.trace)
+    res["reads"] = [t[0] + ("*" if t[1] else "") for t in env.trace]
+    res["reads_in"] = [t[2] for t in env.trace if t[1] and t[0] == "cs"]
+    res["other_in"] = sum(1 for t in env.trace if t[1] and t[0] != "cs")
+    res["rsize"] = pinned[0] if pinned else list(image.rendered_size)
+    if res["raised"]:
         return res
     res["size_kept"] = image.size == size_before
-    rw, rh = image.rendered_size
-    res["rsize"] = [rw, rh]
+    rw, rh = res["rsize"]
     bg = tests.get_fg_bg_colors(hex=True)[1] or "#000000"
 
     if case["style"] == "kitty":
